@@ -105,13 +105,15 @@ T1, T2, T3, T4 = b"\r\n\t", b"\r\n\t\t", b"\r\n\t\t\t", b"\r\n\t\t\t\t"
 
 def plain_text(s, what, allow_empty=True):
     b = s.encode("utf-8") if isinstance(s, str) else s
-    if any(c not in PLAIN for c in b) or b != b.strip() or b"," in b and what != "default" or (not b and not allow_empty):
+    value = what in ("default", "comment", "multiplicity", "modifier", "typeModifier", "initialValue_string", "defaultValue_string")
+    if any(c not in PLAIN for c in b) or b != b.strip() or b"," in b and not (value and b.replace(b",", b"").strip()) or (not b and not allow_empty):
         raise Unencodable("%s %r is not plain text" % (what, s))
     return b
 
 
 def sanitize_comment(s):
-    return "".join(ch for ch in s if ord(ch) < 127 and ord(ch) in PLAIN and ch != ",").strip()
+    t = "".join(ch for ch in s if ord(ch) < 127 and ord(ch) in PLAIN).strip()
+    return t if t.replace(",", "").strip() else ""
 
 
 def normalise(cd):
@@ -406,7 +408,7 @@ NOISE_POOL = [(b"_modelEditable", b"T"), (b"pmAuthor", b'"kohja"'), (b"pmCreateD
 
 
 class Semantic:
-    """builds the value of an sdiagram from a (normalised, association-free) class diagram object graph; ids are invented
+    """builds the value of an sdiagram from a (normalised) class diagram object graph; ids are invented
     except those of the classes; every layout is a random permutation of the present properties and some noise"""
 
     def __init__(self, rng):
@@ -485,6 +487,37 @@ class Semantic:
         tags = (["stereo"] if st else []) + (["abstract"] if abstract else []) + (["doc"] if c.USER_COMMENTS else []) + (["child"] if members else [])
         return [e(c.ID), e(c.NAME), [], st, bb(abstract), e(c.USER_COMMENTS), members, self.layout(tags)]
 
+    def end(self, cd, a, frm, cpath):
+        """one association end; a multiplicity is left out when the reader's default gives the same value whatever the order of the ends"""
+        cid = a.CLASS_FROM_ID if frm else a.CLASS_TO_ID
+        vis, st, co, mu, ge, se = ((a.CLASS_FROM_VISIBILITY, a.CLASS_FROM_IS_STATIC, a.CLASS_FROM_IS_CONST, a.CLASS_FROM_MULTIPLICITY, a.CLASS_FROM_HAS_GETTER, a.CLASS_FROM_HAS_SETTER)
+                                   if frm else (a.CLASS_TO_VISIBILITY, a.CLASS_TO_IS_STATIC, a.CLASS_TO_IS_CONST, a.CLASS_TO_MULTIPLICITY, a.CLASS_TO_HAS_GETTER, a.CLASS_TO_HAS_SETTER))
+        if cid not in cd.classes:
+            raise Unencodable("association end outside the diagram")
+        if not mu:
+            raise Unencodable("association end without multiplicity")
+        omit = mu == "0..1" and (a.TYPE != "Composition" if frm else a.TYPE == "Association") and self.rng.random() < 0.5
+        agg = [b"66" if a.TYPE == "Aggregation" else b"67"] if frm and a.TYPE != "Association" else []
+        if st:
+            if vis != "private":
+                raise Unencodable("static association end with a visibility")
+            code = [b"68"]
+        elif vis != "private" or self.rng.random() < 0.5:
+            if vis not in VIS_B:
+                raise Unencodable("association visibility %r" % vis)
+            code = [VIS_B[vis]]
+        else:
+            code = []
+        tags = ["dir", "type"] + ([] if omit else ["mult"]) + (["agg"] if agg else []) + (["vis"] if code else []) + \
+               [t for t, f in (("getter", ge), ("setter", se), ("readonly", co)) if f]
+        return [self.new_id(), self.rng.choice([[], [b""]]), cpath(cid), b"" if omit else e(mu), agg, code, bb(ge), bb(se), bb(co), self.layout(tags)]
+
+    def assoc(self, cd, a, cpath):
+        if a.TYPE not in ("Association", "Aggregation", "Composition"):
+            raise Unencodable("association type %r" % a.TYPE)
+        return [self.new_id(), [e(a.NAME)] if a.NAME or self.rng.random() < 0.5 else [], [], e(a.USER_COMMENTS), self.end(cd, a, True, cpath),
+                self.end(cd, a, False, cpath), self.layout(["from", "to"] + (["doc"] if a.USER_COMMENTS else []))]
+
     def build(self, cd, name=None):
         for cid in cd.classes:
             self.used.add(cid.encode())
@@ -508,6 +541,8 @@ class Semantic:
             if i.CLASS_FROM_ID not in cd.classes or i.CLASS_TO_ID not in cd.classes:
                 raise Unencodable("inheritance to a class outside the diagram")
             shapes.append([b"inh", [self.new_id(), [], bb(i.IS_REALIZATION), cpath(i.CLASS_FROM_ID), cpath(i.CLASS_TO_ID), self.layout(["from", "to"])]])
+        for a in cd.associations.values():
+            shapes.append([b"assoc", self.assoc(cd, a, cpath)])
         if self.rng.random() < 0.3:
             shapes.append([b"other", self.new_id(), [], b"Usage", [], self.layout([])])
         # shapes in any drawing order, each kind keeping its relative order
@@ -520,7 +555,6 @@ class Semantic:
 
 
 def semantic_value(rng, cd, name=None):
-    """(kmodel value of the sdiagram, name) for the object graph cd (normalised in place; associations dropped: not in the domain)"""
+    """(kmodel value of the sdiagram, name) for the object graph cd (normalised in place)"""
     normalise(cd)
-    cd.associations.clear()
     return Semantic(rng).build(cd, name), (name or cd.name).encode()
